@@ -316,7 +316,7 @@ pub fn run(opts: &Opts) -> i32 {
                         });
                     }
                 }
-                Run::Panic(p) => {
+                Run::Panic(p, _ptail) => {
                     rep.violation(Violation { signature: format!("{}: {}", case.role.name(), p.signature()), what: format!("panic: {} at {}", p.msg, p.location), replay: json!({"case": format!("{case:?}")}) });
                     after = After::RetireThread;
                     break;
@@ -370,7 +370,7 @@ pub fn run(opts: &Opts) -> i32 {
                     });
                 }
             }
-            Run::Panic(p) => rep.violation(Violation { signature: format!("{}: {}", case.role.name(), p.signature()), what: format!("panic: {} at {}", p.msg, p.location), replay: json!({"case": format!("{case:?}"), "seed": opts.seed, "index": i}) }),
+            Run::Panic(p, _ptail) => rep.violation(Violation { signature: format!("{}: {}", case.role.name(), p.signature()), what: format!("panic: {} at {}", p.msg, p.location), replay: json!({"case": format!("{case:?}"), "seed": opts.seed, "index": i}) }),
             Run::Livelock(tail) => rep.violation(Violation { signature: format!("{}: live-lock", case.role.name()), what: "step budget exhausted: the connection never became quiescent".into(), replay: json!({"stream": "long", "case": format!("{case:?}"), "seed": opts.seed, "index": i, "log": tail}) }),
             Run::Watchdog => rep.inconclusive("watchdog"),
         }
@@ -455,7 +455,7 @@ fn replay(opts: &Opts, cases: &[Case], path: &std::path::Path) -> i32 {
                 1
             }
         }
-        Run::Panic(p) => {
+        Run::Panic(p, _ptail) => {
             println!("panic {} at {}\nVIOLATION property=C04 replay={}", p.msg, p.location, path.display());
             1
         }
